@@ -117,7 +117,7 @@ PROPERTIES = {
         "rule": "rapidcheck: populations of 1-8 cells of the five classes, 4-700 triangles, coordinate scales 1e-9..1e6 with offsets up to "
                 "1e4 sizes, exact and negative zeros and the tiny values of either sign that rounding leaves on a coordinate plane (1e-17 .. 1e-200, subnormal 1e-310: three-digit exponents in the %.4e rendering), type ids 0..12; cells optionally pre-processed by 1-8 real split/collapse operations "
                 "so that they hold unused slots; three writer entry points (write_cell_data_file(cells), write(cell+face files), "
-                "vector<mesh> overload). Non-trivial = >= 2 cell classes AND at least one cell the writer had to compact; distinct = hash of the case.",
+                "vector<mesh> overload); the cell type objects are pooled for the life of the process and re-parameterised per case, and before the judged write an earlier tissue is written with the same type objects carrying other ids (the bit of process history a parameter screening creates is part of the case). Non-trivial = >= 2 cell classes AND at least one cell the writer had to compact; distinct = hash of the case.",
         "min_nontrivial": 100,
         "assumptions": ["'equal to the written precision' is decided exactly: the value read back must equal strtod of the harness's own %.4e rendering",
                         "cell types are only round-tripped through mesh_writer::write (the only entry point that writes the type array)"],
@@ -320,7 +320,7 @@ PROPERTIES = {
                 "polygonal cube that goes through the reconstruction): every token deleted / duplicated / replaced by each of 15 hostile "
                 "values, every line replaced by 7 inconsistent count lines, every section removed / swapped, truncation at (every) byte "
                 "offset; every XML element removed / duplicated / emptied / self-closed / replaced by 22 hostile texts, every tag deleted, "
-                "every section removed or emptied; each mutant goes through the real start-up in the sanitized child. (a) libFuzzer (clang, "
+                "every section removed or emptied; each mutant goes through the real start-up in the sanitized child; an input that start-up accepts must have been turned into cells that are closed surfaces with consistent bookkeeping (independent topology oracle, combinatorial clauses). (a) libFuzzer (clang, "
                 "ASan+UBSan) on three targets with semantic oracles, half of the workers from the committed seeds and half from an empty "
                 "corpus. Non-trivial = a mutant that gets past the first syntactic check (completes, or fails with anything but the "
                 "header / file-not-found message), or a coverage-increasing fuzz input; distinct = mutation description / corpus file.",
